@@ -364,7 +364,6 @@ package rib
 //@ assigns r.r.Afts.NextHop, contents(r.r.Afts.NextHop)
 //@ props C01 C12:safety
 
-
 // ---- generated: candidate construction, Add/Delete per table ----
 //@ ghostvar hookCount Int
 //@ fnfield RIBHolder.postChangeHook
@@ -619,7 +618,6 @@ package rib
 //@ assigns r.r.Afts.LabelEntry[boxed(aft.UnionUint32, label)]
 //@ props C01 C12:safety
 
-
 // ---- resolution and deletion checks (C02, C03) ----
 //@ pred holdersWF(r *RIB) = r != nil && r.defaultName in dom(r.niRIB) && (forall k in dom(r.niRIB) :: holderWF(r.niRIB[k]) && r.niRIB[k].name == k) && holdersSeparate(r)
 // holdersSeparate: network instances share no storage (each is built by its own NewRIBHolder call).
@@ -736,7 +734,6 @@ package rib
 //@   refTarget(r, niRIB, original.GetNextHopGroupNetworkInstance()).refCounts.NextHopGroup[original.GetNextHopGroup()]
 //@ props C03 C12:safety
 
-
 // inNew: the group message lists next-hop index i (at least once).
 //@ pred inNew(g *aftpb.Afts_NextHopGroup, i uint64) = exists j in 0..len(g.NextHop) :: g.NextHop[j].GetIndex() == i
 //@ pred inNewUpTo(g *aftpb.Afts_NextHopGroup, n Int, i uint64) = exists j in 0..n :: g.NextHop[j].GetIndex() == i
@@ -755,9 +752,7 @@ package rib
 //@ assigns contents(niRIB.refCounts.NextHop)
 //@ props C03 C12:safety
 
-
 // ---- resolved-entry hook and RIB copies ----
-
 
 //@ unit RIB.copyRIBs
 //@ requires r != nil && (forall k in dom(r.niRIB) :: r.niRIB[k] != nil && r.niRIB[k].r != nil)
@@ -779,7 +774,6 @@ package rib
 //@ ensures[called-iff-set] spawned == old(spawned) + ite(r.resolvedEntryHook != nil, 1, 0)
 //@ assigns spawned
 //@ props C16 C12:safety
-
 
 // ---- operations on the whole RIB (C01, C02, C06) ----
 //@ pred opWF(op *spb.AFTOperation) = op != nil && oneofOK(op.Entry) && (op.GetMpls() != nil ==> oneofOK(op.GetMpls().Label))
@@ -847,3 +841,78 @@ package rib
 //@ assigns ribState, *oks, *fails, contents(installStack), spawned, hookCount
 //@ props C01 C02 C06 C12:safety
 
+// ---- construction and hooks (C16) ----
+// hookInv: every network instance notifies through the hook last given to SetPostChangeHook,
+// regardless of when the instance was created.
+//@ pred hookInv(r *RIB) = forall k in dom(r.niRIB) :: r.niRIB[k].postChangeHook == r.postChangeHook
+
+//@ fnfield ribHolderCheckFn.fn
+//@ why the check function handed to NewRIBHolder is RIB.checkFn of the owning RIB (New, AddNetworkInstance); it reads the RIB and modifies nothing
+//@ assigns nothing
+
+//@ unit NewRIBHolder$1
+//@ requires fn != nil
+//@ assigns nothing
+//@ props C02 C12:safety
+
+//@ unit hasCheckFn
+//@ ensures[found] result0 != nil ==> exists i in 0..len(opts) :: istype(opts[i], *ribHolderCheckFn) && payload(opts[i]) == result0
+//@ ensures[none] result0 == nil ==> forall i in 0..len(opts) :: !istype(opts[i], *ribHolderCheckFn) || payload(opts[i]) == 0
+//@ loop 1 at "range opts" invariant forall i in 0..loopi :: !istype(opts[i], *ribHolderCheckFn) || payload(opts[i]) == 0
+//@ assigns nothing
+//@ props C16 C12:safety
+
+//@ unit hasRHDisableForwardRef
+//@ ensures result0 <==> exists i in 0..len(opts) :: istype(opts[i], *disableForwardRef)
+//@ loop 1 at "range opts" invariant forall i in 0..loopi :: !istype(opts[i], *disableForwardRef)
+//@ assigns nothing
+//@ props C16 C12:safety
+
+//@ unit hasDisableCheckFn
+//@ ensures result0 <==> exists i in 0..len(opt) :: istype(opt[i], *disableCheckFn)
+//@ loop 1 at "range opt" invariant forall i in 0..loopi :: !istype(opt[i], *disableCheckFn)
+//@ assigns nothing
+//@ props C16 C12:safety
+
+//@ unit hasDisableForwardRef
+//@ ensures result0 <==> exists i in 0..len(opt) :: istype(opt[i], *disableForwardRef)
+//@ loop 1 at "range opt" invariant forall i in 0..loopi :: !istype(opt[i], *disableForwardRef)
+//@ assigns nothing
+//@ props C16 C12:safety
+
+//@ inline RIBHolderCheckFn
+//@ inline DisableForwardReferences
+
+//@ unit NewRIBHolder
+//@ ensures[fresh] result0 != nil && fresh(result0) && holderWF(result0) && result0.name == name && result0.postChangeHook == nil
+//@ ensures[empty] emptied(result0.r.Afts) && fresh(result0.r) && fresh(result0.r.Afts) && fresh(result0.refCounts)
+//@   && fresh(result0.refCounts.NextHop) && fresh(result0.refCounts.NextHopGroup)
+//@   && dom(result0.refCounts.NextHop) == emptyset(uint64) && dom(result0.refCounts.NextHopGroup) == emptyset(uint64)
+//@ ensures[tables-nil] result0.r.Afts.Ipv4Entry == nil && result0.r.Afts.Ipv6Entry == nil && result0.r.Afts.LabelEntry == nil && result0.r.Afts.NextHopGroup == nil && result0.r.Afts.NextHop == nil
+//@ assigns nothing
+//@ props C16 C01 C12:safety
+
+//@ unit RIB.SetPostChangeHook
+//@ requires r != nil && (forall k in dom(r.niRIB) :: r.niRIB[k] != nil) && nolocks(RIBHolder.mu)
+//@ ensures[all-instances] r.postChangeHook == fn && hookInv(r)
+//@ loop 1 at "range r.niRIB" invariant forall k in visited :: k in dom(r.niRIB) ==> r.niRIB[k].postChangeHook == fn
+//@ loop 1 invariant nolocks(RIBHolder.mu) && r.postChangeHook == fn
+//@ assigns r.postChangeHook, all(RIBHolder.postChangeHook)
+//@ props C16 C12:safety
+
+//@ unit RIB.AddNetworkInstance
+//@ requires holdersWF(r) && hookInv(r)
+//@ ensures[exists] name in old(dom(r.niRIB)) ==> result0 != nil && dom(r.niRIB) == old(dom(r.niRIB))
+//@ ensures[added] !(name in old(dom(r.niRIB))) ==> result0 == nil && name in dom(r.niRIB) && fresh(r.niRIB[name]) && emptied(r.niRIB[name].r.Afts)
+//@ ensures[hook-inv] hookInv(r)
+//@ ensures[wf] holdersWF(r)
+//@ ensures[others] forall k in old(dom(r.niRIB)) :: k in dom(r.niRIB) && r.niRIB[k] == old(r.niRIB[k])
+//@ assigns r.niRIB[name]
+//@ props C16 C12:safety C11:lock
+
+//@ unit New
+//@ ensures[wf] result0 != nil && fresh(result0) && holdersWF(result0) && pendingWF(result0) && hookInv(result0)
+//@ ensures[default-only] dom(result0.niRIB) == add(emptyset(string), dn) && result0.defaultName == dn && emptied(result0.niRIB[dn].r.Afts)
+//@ ensures[nothing-held] dom(result0.pendingEntries) == emptyset(uint64)
+//@ assigns nothing
+//@ props C16 C01 C12:safety
